@@ -269,6 +269,70 @@ def shadowed_compounds(chk):
     chk.part("shadowed_compounds", programs=len(jobs))
 
 
+REC_DECLS = ("struct Lst<T>(h: T, t: Optional<Lst<T>>)\nstruct Nest<T>(v: T, deeper: Optional<Nest<Sequence<T>>>)\n"
+             "struct Alt<T, U>(v: T, flip: Optional<Alt<U, T>>)\nunion Res<T, U>(ok: T, err: U)\n")
+
+
+def rec_term(e):
+    k = e["k"]
+    if k == "hole":
+        return inh(e["ty"])
+    if k == "nil":
+        return "none()"
+    if k == "some":
+        return "some(%s)" % rec_term(e["e"])
+    if k == "cons":
+        return "%s(%s)" % (e["name"], ", ".join(rec_term(a) for a in e["args"]))
+    if k == "variant":
+        return "Res::%s(%s)" % (("ok", "err")[e["idx"] - 1], rec_term(e["e"]))
+    raise ValueError(k)
+
+
+def recursive_compounds(chk):
+    """XrTypesRec: constructor applications of (non-)regularly recursive generic compounds: verdict, inferred
+    type, and assignability of the value to declared types"""
+    r = vf.tlc("XrTypesRec", "XrTypesRec.cfg", "c04-rec", workers=1, timeout=3000)
+    if not r.ok:
+        raise vf.ToolError("XrTypesRec failed:\n" + r.out[-2500:])
+    chk.add_tlc(r)
+    cases = r.cases()
+    jobs, meta = [], {}
+    for i, c in enumerate(cases):
+        src = REC_DECLS + "let v = %s;\n" % rec_term(c["term"])
+        jobs.append({"id": "rc%d" % i, "src": src, "compile_only": True, "types": ["v"]})
+        meta["rc%d" % i] = ("infer", c, None)
+        for k, tg in enumerate(c["targets"] or []):
+            jid = "rc%d_%d" % (i, k)
+            jobs.append({"id": jid, "src": REC_DECLS + "let v: %s = %s;\n" % (ann(tg["ty"]), rec_term(c["term"])), "compile_only": True})
+            meta[jid] = ("assign", c, tg)
+    res = vf.run_jobs(jobs, "c04-rec")
+    for j in jobs:
+        mode, c, tg = meta[j["id"]]
+        o = res[j["id"]]
+        oc = vf.job_outcome(o)
+        chk.count(1)
+        chk.nontrivial(["rec", j["src"]])
+        if oc not in ("ok", "compile_err"):
+            chk.violation("compiling `%s`: %s" % (j["src"][len(REC_DECLS):], oc), {"kind": "assign", "source": j["src"], "observed": oc})
+            continue
+        if mode == "infer":
+            want_ok = c["ok"]
+            got_ty = o.get("types", {}).get("v")
+            good = (oc == "ok") == want_ok and (not want_ok or got_ty == ann(c["ty"]))
+            if not good:
+                chk.violation("`%s`: expected %s, compiler: %s" % (j["src"][len(REC_DECLS):].strip(), "type " + ann(c["ty"]) if want_ok else "a type error",
+                                                                  got_ty if oc == "ok" else "rejects: " + o["compile"].get("msg", "")[:140]),
+                              {"kind": "infer", "source": j["src"], "expected": "Sequence" if False else (ann(c["ty"]) if want_ok else "rejected (ill typed)"), "observed": got_ty if oc == "ok" else oc},
+                              finding_key="rec:infer:%s" % c["term"].get("name"))
+        else:
+            if (oc == "ok") != tg["ok"]:
+                chk.violation("`%s`: %s, compiler %s" % (j["src"][len(REC_DECLS):].strip(), "assignable" if tg["ok"] else "not assignable",
+                                                         "accepts" if oc == "ok" else "rejects: " + o["compile"].get("msg", "")[:140]),
+                              {"kind": "assign", "source": j["src"], "expected": "accept" if tg["ok"] else "reject", "observed": "accept" if oc == "ok" else o["compile"]},
+                              finding_key="rec:assign:%s<-%s" % (ann(tg["ty"]), ann(c["ty"])))
+    chk.part("recursive_compounds", terms=len(cases), compilations=len(jobs))
+
+
 def run(chk, tier, seed):
     for declared in (False, True):
         STYLE["declared"] = declared
@@ -276,6 +340,7 @@ def run(chk, tier, seed):
         run_style(chk, tier, seed, declared)
     generic_context(chk, tier, seed)
     shadowed_compounds(chk)
+    recursive_compounds(chk)
 
 
 def mk(body):
